@@ -211,7 +211,18 @@ pub fn run(file: &str) {
                                 std::thread::sleep(std::time::Duration::from_millis(2));
                                 obs.push("Yidle".into());
                             } else {
-                                obs.push(show(&runner.wait_parked(2500)));
+                                let st = runner.wait_parked(2500);
+                                let mut o = show(&st);
+                                // at the post-unlock sites report whether the worker lock is held (by a later tick or a queued run;
+                                // never by this run) - compared with the model's lock state
+                                if let St::Parked(s, _) = &st {
+                                    if (*s == "run.unlocked" || *s == "run.before_notify" || *s == "run.done")
+                                        && unsafe { (*nptr).verif_worker_locked() }
+                                    {
+                                        o.push_str("!locked");
+                                    }
+                                }
+                                obs.push(o);
                             }
                         }
                         _ => obs.push("NORUN".into()),
